@@ -14,6 +14,70 @@ mod world;
 
 use dvcommon::Args;
 
+const CHUNK: usize = 150;
+
+/// splits the op file by cases, runs each chunk in a child process, concatenates outputs and statistics;
+/// `None` when the file is small enough to be run in this process
+fn chunked(a: &Args) -> Option<i32> {
+    use std::io::Write;
+    let ops = a.str_or("ops", "cases.ops");
+    let out = a.str_or("out", "impl.out");
+    let text = std::fs::read_to_string(&ops).ok()?;
+    let mut cases: Vec<Vec<&str>> = vec![];
+    for line in text.lines() {
+        if line.starts_with("case ") || cases.is_empty() {
+            cases.push(vec![]);
+        }
+        cases.last_mut().unwrap().push(line);
+    }
+    if cases.len() <= CHUNK {
+        return None;
+    }
+    let exe = std::env::current_exe().ok()?;
+    let mut w = std::io::BufWriter::new(std::fs::File::create(&out).ok()?);
+    let mut counters: std::collections::BTreeMap<String, u64> = std::collections::BTreeMap::new();
+    for (i, chunk) in cases.chunks(CHUNK).enumerate() {
+        let cops = format!("{}.chunk{}.ops", out, i);
+        let cout = format!("{}.chunk{}.out", out, i);
+        let cstats = format!("{}.chunk{}.stats", out, i);
+        {
+            let mut f = std::io::BufWriter::new(std::fs::File::create(&cops).ok()?);
+            for c in chunk {
+                for l in c {
+                    writeln!(f, "{}", l).ok()?;
+                }
+            }
+        }
+        let st = std::process::Command::new(&exe)
+            .args(["run", "--ops", &cops, "--out", &cout, "--stats", &cstats])
+            .env("DV_CHILD", "1")
+            .status()
+            .ok()?;
+        if !st.success() {
+            return Some(st.code().unwrap_or(3));
+        }
+        w.write_all(&std::fs::read(&cout).ok()?).ok()?;
+        if let Ok(t) = std::fs::read_to_string(&cstats) {
+            if let Ok(v) = serde_json::from_str::<serde_json::Value>(&t) {
+                if let Some(m) = v["counters"].as_object() {
+                    for (k, n) in m {
+                        *counters.entry(k.clone()).or_insert(0) += n.as_u64().unwrap_or(0);
+                    }
+                }
+            }
+        }
+        for f in [&cops, &cout, &cstats] {
+            let _ = std::fs::remove_file(f);
+        }
+    }
+    w.flush().ok()?;
+    if let Some(p) = a.get("stats") {
+        let v = serde_json::json!({"counters": counters, "samples": []});
+        std::fs::write(p, serde_json::to_string_pretty(&v).unwrap()).ok()?;
+    }
+    Some(0)
+}
+
 fn main() {
     let a = Args::parse();
     match a.cmd.as_str() {
@@ -25,6 +89,13 @@ fn main() {
         ),
         "fix" => gen::fix(&a.str_or("ops", "cases.ops"), &a.str_or("out", "fixed.ops")),
         "run" => {
+            // every case starts a fresh instance whose service threads outlive it: large files are run by
+            // child processes, a few hundred cases each
+            if std::env::var("DV_CHILD").is_err() {
+                if let Some(code) = chunked(&a) {
+                    std::process::exit(code);
+                }
+            }
             let rt = tokio::runtime::Builder::new_multi_thread()
                 .worker_threads(4)
                 .enable_all()
